@@ -77,6 +77,11 @@ pub fn gen_history(seed: u64, idx: usize, to: Fmt, cl: &mut Classes) -> History 
                 let d = if n >= 17 {
                     // many small documents, scalars first
                     if j == 0 { Val::Int(j as i128) } else { gen_doc(&mut rng, &GenOpts { max_depth: 1, max_width: 2, ..GenOpts::common() }, cl) }
+                } else if idx % 500 == 499 && j == 0 {
+                    // a map / array whose entry count is in the upper half of what a 16-bit header holds
+                    feats.hit("heavy_document");
+                    let n = *rng.pick(&[32768usize, 40000, 65535]);
+                    if rng.chance(2, 3) { Val::Map((0..n).map(|i| (Val::Str(format!("k{i}")), Val::Int((i % 5) as i128))).collect()) } else { Val::Seq((0..n).map(|i| Val::Int((i % 5) as i128)).collect()) }
                 } else if idx % 250 == 249 && j == 0 {
                     // a document with thousands of entries between ordinary ones: a collection written with a
                     // wrong length would spill into extra top-level documents
